@@ -21,7 +21,7 @@ from vf.core import CaseResult, Ctx, Violation, exc_sig, hyp_run
 
 PROP_ID = 'C48'
 LEVEL = 'exploration'
-BUDGET = {'quick': 320, 'thorough': 8000}
+BUDGET = {'quick': 320, 'thorough': 4000}
 MANIFEST = {
     'engine': 'F',
     'technique': 'stateful history of install / reinstall / clean on a real '
